@@ -139,7 +139,7 @@ pub fn run_c17(ctx: &Ctx, acc: &Mutex<Acc>) -> Option<Violation> {
         return Some(v);
     }
     acc.lock().unwrap().exhaustive = false;
-    let cases = ctx.tier.scale(40, 20);
+    let cases = ctx.tier.scale(300, 10);
     let rv = || prop_oneof![3 => 0u64..20, 3 => 0u64..110_000, 1 => Just(u64::MAX), 1 => Just(1u64 << 32), 1 => any::<u64>()];
     campaign(
         ctx,
@@ -538,7 +538,7 @@ fn c10_run(case: &C10Case, thorough: bool) -> R<CaseMeta> {
 }
 
 pub fn run_c10(ctx: &Ctx, acc: &Mutex<Acc>) -> Option<Violation> {
-    let cases = ctx.tier.scale(3, 6);
+    let cases = ctx.tier.scale(8, 4);
     let thorough = ctx.tier == Tier::Thorough;
     let strat = || {
         (
